@@ -247,10 +247,11 @@ class Interp:
         self.skips = []  # positions where a skip of whitespace/comments was attempted, with state
         self.kw_hits = []  # (end position) of every successful identifier-like literal match
 
-    def regex(self, pat, flags=re.MULTILINE):
-        key = (pat, flags)
+    def regex(self, pat, flags=re.MULTILINE, user=True):
+        """user regexes honour ignore_case; the built-in base types never do"""
+        key = (pat, flags, user)
         if key not in self._re:
-            f = flags | (re.IGNORECASE if self.ignore_case else 0)
+            f = flags | (re.IGNORECASE if (self.ignore_case and user) else 0)
             self._re[key] = re.compile(pat, f)
         return self._re[key]
 
@@ -455,7 +456,7 @@ class Interp:
     def rule(self, name, pos, st, inc):
         if name in BASE_RE:
             p = self.skip(pos, st, inc)
-            m = self.regex(BASE_RE[name]).match(self.text, p)
+            m = self.regex(BASE_RE[name], user=False).match(self.text, p)
             if not m or m.end() == p:
                 return None
             return m.end(), [("t", m.group(), p, m.end(), name, None)]
